@@ -14,6 +14,7 @@ import (
 	"github.com/New-JAMneration/JAM-Protocol/internal/utilities/hash"
 	m "github.com/New-JAMneration/JAM-Protocol/internal/utilities/merklization"
 	"github.com/New-JAMneration/JAM-Protocol/internal/zzverif/vlib"
+	"github.com/New-JAMneration/JAM-Protocol/internal/zzverif/vsched"
 )
 
 // ---- service entry pool ----
@@ -54,6 +55,10 @@ type c17Case struct {
 	Svcs      []c17Svc  `json:"svcs"`
 	Perm      []int     `json:"perm,omitempty"`
 	Placement string    `json:"placement,omitempty"` // before | after | mixed
+	// map-order mode: the iteration order of every range-over-map inside StateKeyValsToState is a
+	// scheduler choice (merklization is instrumented by vrewrite); Choices replays one execution
+	MapOrders bool  `json:"map_orders,omitempty"`
+	Choices   []int `json:"choices,omitempty"`
 }
 
 func c17Account(s c17Svc) types.ServiceAccount {
@@ -145,19 +150,57 @@ func c17Classify(k types.StateKey, orig map[types.StateKey]string) string {
 	return "unknown key"
 }
 
-// c17Check runs one import/export round trip on the given input order.
+// c17Check runs one import/export round trip on the given input order. With cs.MapOrders the
+// import is run under the vsched explorer: one execution per combination of map iteration orders
+// with at most 2 non-sorted orders (all n! orders of a map with n <= 4 keys), each judged.
 func c17Check(r *vlib.Run, kvs0 types.StateKeyVals, root0 types.StateRoot, in types.StateKeyVals, labels map[types.StateKey]string, cs c17Case, shape string) {
-	r.Eval()
-	r.Space(1)
 	var st types.State
 	var raw types.StateKeyVals
 	var err error
+	if cs.MapOrders {
+		body := func(e *vsched.Exec) { st, raw, err = m.StateKeyValsToState(in.DeepCopy()) }
+		judge := func(e *vsched.Exec) {
+			c := cs
+			c.Choices = e.Choices()
+			r.Trace()
+			if e.Outcome != "ok" {
+				r.Eval()
+				r.Space(1)
+				r.Class("exec " + e.Outcome)
+				r.Violation("merklization.StateKeyValsToState", e.Outcome, "under an explorer-chosen map order", e.Detail, c)
+				return
+			}
+			nondefault := 0
+			for _, p := range e.Points {
+				if p.Chosen != 0 {
+					nondefault++
+				}
+			}
+			c17Judge(r, kvs0, root0, st, raw, err, labels, c, fmt.Sprintf("%s map-orders=%d/%d", shape, nondefault, len(e.Points)))
+		}
+		if cs.Choices != nil { // replay of one execution
+			judge(vsched.RunOnce(cs.Choices, map[uint64]struct{}{}, nil, body))
+			return
+		}
+		x := &vsched.Explorer{Bound: 2, NShards: 1, Stop: r.Expired, Body: body, OnExec: judge}
+		x.Run()
+		return
+	}
 	inCopy := in.DeepCopy()
 	if p, msg, site := vlib.Guard(func() { st, raw, err = m.StateKeyValsToState(inCopy) }); p {
+		r.Eval()
+		r.Space(1)
 		r.Class("panic")
 		r.Violation(site, "go-panic", cgenPanicClass(msg), "StateKeyValsToState panicked: "+msg, cs)
 		return
 	}
+	c17Judge(r, kvs0, root0, st, raw, err, labels, cs, shape)
+}
+
+// c17Judge: the oracle for one completed import.
+func c17Judge(r *vlib.Run, kvs0 types.StateKeyVals, root0 types.StateRoot, st types.State, raw types.StateKeyVals, err error, labels map[types.StateKey]string, cs c17Case, shape string) {
+	r.Eval()
+	r.Space(1)
 	r.Transition()
 	if err != nil {
 		r.Class("import-error")
@@ -286,6 +329,7 @@ func c17Shape(svcs []c17Svc) string {
 
 // c17RunConfig: all orders of the service-related key-values, before / after the components.
 func c17RunConfig(r *vlib.Run, devs []cgenDev, svcs []c17Svc, mode string, allPerms bool, only *c17Case) {
+	mapOrders := mode == "lookups"
 	st := c17State(devs, svcs)
 	kvs0, err := m.StateEncoder(st)
 	if err != nil {
@@ -340,8 +384,9 @@ func c17RunConfig(r *vlib.Run, devs []cgenDev, svcs []c17Svc, mode string, allPe
 		c17Check(r, kvs0, root0, build(only.Perm, only.Placement), labels, *only, shape)
 		return
 	}
+	_ = mapOrders
 	run := func(p []int, placement string) {
-		cs := c17Case{Mode: mode, Devs: devs, Svcs: svcs, Perm: append([]int(nil), p...), Placement: placement}
+		cs := c17Case{Mode: mode, Devs: devs, Svcs: svcs, Perm: append([]int(nil), p...), Placement: placement, MapOrders: mapOrders}
 		c17Check(r, kvs0, root0, build(p, placement), labels, cs, shape+" "+placement)
 	}
 	if allPerms {
@@ -368,6 +413,34 @@ func c17RunConfig(r *vlib.Run, devs []cgenDev, svcs []c17Svc, mode string, allPe
 	if r.WantSample() {
 		r.Sample(map[string]interface{}{"mode": mode, "services": svcs, "deviations": devs, "key_values": len(kvs0), "root": vlib.Hex(root0[:])})
 	}
+}
+
+// c17LookupConfigs: 2 or 3 stored preimages with their lookup entries in one service, and one
+// preimage + lookup in each of two services; timeslot-set lengths in all combinations of 0..3.
+func c17LookupConfigs() [][]c17Svc {
+	var out [][]c17Svc
+	lk := func(i, ts int) []c17Entry { return []c17Entry{{"pre", i, 0}, {"lk", i, ts}} }
+	for _, pair := range [][2]int{{0, 1}, {0, 2}, {1, 2}} {
+		for a := 0; a <= 3; a++ {
+			for b := 0; b <= 3; b++ {
+				for _, id := range []uint32{0, 0x12345678} {
+					out = append(out, []c17Svc{{id, append(lk(pair[0], a), lk(pair[1], b)...)}})
+				}
+				for _, ids := range [][2]uint32{{0, 0xFFFFFFFF}, {1, 0x12345678}} {
+					out = append(out, []c17Svc{{ids[0], lk(pair[0], a)}, {ids[1], lk(pair[1], b)}})
+					out = append(out, []c17Svc{{ids[0], lk(pair[0], a)}, {ids[1], lk(pair[0], b)}}) // same preimage in both services
+				}
+			}
+		}
+	}
+	for a := 0; a <= 3; a++ {
+		for b := 0; b <= 3; b++ {
+			for c := 0; c <= 3; c++ {
+				out = append(out, []c17Svc{{0x12345678, append(append(lk(0, a), lk(1, b)...), lk(2, c)...)}})
+			}
+		}
+	}
+	return out
 }
 
 var c17FixedSvc = []c17Svc{{ID: 0x12345678, Entries: []c17Entry{{"st", 1, 0}, {"pre", 1, 0}, {"lk", 1, 2}, {"lk", 3, 1}}}}
@@ -397,6 +470,18 @@ func TestVerif_C17(t *testing.T) {
 			c17RunConfig(r, append([]cgenDev(nil), devs...), c17FixedSvc, "comp", false, nil)
 			return true
 		})
+	}
+
+	// (iii) several attributed lookups per import, every combination of timeslot-set lengths 0..3
+	// (in particular an empty set next to a non-empty one), in one service and across two; the map
+	// iteration orders inside the importer are explorer-owned (all orders, <= 2 non-sorted at a time);
+	// input orders: identity and reverse, before and after the components.
+	for _, cfg := range c17LookupConfigs() {
+		idx++
+		if !r.Mine(idx) {
+			continue
+		}
+		c17RunConfig(r, nil, cfg, "lookups", false, nil)
 	}
 
 	// (i) delta shapes x all orders, minimal components. budget = total number of
